@@ -259,3 +259,89 @@ class Recorder:
 
     def rec(self, name, *args):
         self.calls.append((self.sim.now, name) + args)
+
+
+# ---------------------------------------------------------------- SD datagrams from plain entries
+def sd_entries_builder(entries):
+    """entries: list of dicts {t: offer|stop|find|sub|stopsub|ack|nack, svc, inst, major, minor, ttl, eg, counter,
+    eps: [[addr, port, proto]...], opts: [option descs]} -> wire.SDBuilder"""
+    b = wire.SDBuilder()
+    for e in entries:
+        k = e["t"]
+        opts = [ep_desc(*x) for x in e.get("eps", [])] + list(e.get("opts", []))
+        svc, inst, major = e.get("svc", 0x1000), e.get("inst", 1), e.get("major", 1)
+        if k in ("offer", "stop"):
+            b.add(wire.OFFER, svc, inst, major, 0 if k == "stop" else e.get("ttl", 3), minor=e.get("minor", 0),
+                  run1=opts, run2=e.get("opts2", []))
+        elif k == "find":
+            b.add(wire.FIND, svc, inst, major, e.get("ttl", 3), minor=e.get("minor", 0xFFFFFFFF))
+        elif k in ("sub", "stopsub"):
+            b.add(wire.SUBSCRIBE, svc, inst, major, 0 if k == "stopsub" else e.get("ttl", 3), counter=e.get("counter", 0),
+                  eventgroup=e.get("eg", 1), run1=opts, run2=e.get("opts2", []))
+        elif k in ("ack", "nack"):
+            b.add(wire.SUBSCRIBE_ACK, svc, inst, major, 0 if k == "nack" else e.get("ttl", 3), counter=e.get("counter", 0),
+                  eventgroup=e.get("eg", 1))
+        else:
+            raise ValueError(k)
+    return b
+
+
+def sd_bytes(entries, session, reboot=True, unicast=True):
+    return sd_entries_builder(entries).datagram(session, reboot=reboot, unicast=unicast)
+
+
+class Sessions:
+    """per (peer, channel) session counters of simulated peers: next() follows the protocol,
+    reset() simulates a restart (id 1, reboot flag set)"""
+
+    def __init__(self):
+        self.state = {}
+
+    def next(self, key):
+        flag, n = self.state.get(key, (True, 1))
+        self.state[key] = (flag, n + 1) if n < 0xFFFF else (False, 1)
+        return flag, n
+
+    def reset(self, key):
+        self.state[key] = (True, 1)
+
+    def reset_peer(self, peer):
+        for k in list(self.state):
+            if k[0] == peer:
+                del self.state[k]
+
+
+def svc_key(s):
+    return (s.service_id, s.instance_id, s.major_version, s.minor_version)
+
+
+def sub_key(s):
+    return (s.service_id, s.instance_id, s.major_version, s.id, s.counter,
+            tuple(sorted(option_desc(e) for e in s.endpoints)))
+
+
+class ClientRec(sd.ClientServiceListener):
+    def __init__(self, sim, log, name):
+        self.sim, self.log, self.name = sim, log, name
+
+    def service_offered(self, service, source):
+        self.log.append((self.sim.now, self.name, "offered", svc_key(service), tuple(source)))
+
+    def service_stopped(self, service, source):
+        self.log.append((self.sim.now, self.name, "stopped", svc_key(service), tuple(source)))
+
+
+class ServerRec(sd.ServerServiceListener):
+    """records; decide(subscription, source) -> True to accept"""
+
+    def __init__(self, sim, log, name, decide=None):
+        self.sim, self.log, self.name, self.decide = sim, log, name, decide
+
+    def client_subscribed(self, subscription, source):
+        accept = True if self.decide is None else bool(self.decide(subscription, source))
+        self.log.append((self.sim.now, self.name, "subscribed" if accept else "rejected", sub_key(subscription), tuple(source), subscription.ttl))
+        if not accept:
+            raise sd.NakSubscription
+
+    def client_unsubscribed(self, subscription, source):
+        self.log.append((self.sim.now, self.name, "unsubscribed", sub_key(subscription), tuple(source), subscription.ttl))
